@@ -311,6 +311,13 @@ def verify(ops, sut, aux, mask, cache, stats=None):
         if complete is True and len(items) != len(answers):
             return _fail(k, op, f"{len(items)} results for {len(answers)} answers", items)
         dump = ax["dump"]
+        # ids that occur both as an auto-generated helper and as a user-named node (a rule explicitly named like a
+        # generated id and identical to the helper): whether such a column counts as "helper" is undefined
+        flags = {}
+        for n in M.nodes(dump):
+            if n["k"] == "cmp":
+                flags.setdefault(n["id"], set()).add(bool(n["gen"]))
+        ambiguous = {i for i, f in flags.items() if len(f) > 1}
         nodes = {}
         for n in (ax["flatten"][1:] if ax["flatten"] else []):
             if isinstance(n, dict):
@@ -359,6 +366,13 @@ def verify(ops, sut, aux, mask, cache, stats=None):
             for kk, vv in got_d[1]:
                 got_map[kk] = vv
             exp_c = {i: _canon_num(v, spec.get("vectype")) for i, v in exp.items()}
+            if vec is not None and not is_select and not a.get("virt"):
+                for c, i in enumerate(col_ids):
+                    if i in ambiguous:
+                        if i in got_map:
+                            exp_c[i] = _canon_num(vec[c], spec.get("vectype"))
+                        else:
+                            exp_c.pop(i, None)
             if got_map != exp_c:
                 return _fail(k, op, f"result {j}: solution dictionary is not {{column id: value at that column}}", got_d, sorted(exp_c.items()))
             # ---- (5) exact peer: optimal for the intended weights, feasible, satisfies solver-safe models
